@@ -4,4 +4,4 @@
 From Coq Require Import Extraction ExtrOcamlBasic ExtrOcamlNativeString.
 From Tealer Require Import Driver.
 Extraction Blacklist String List Nat Char.
-Separate Extraction Driver.handle_cfg Driver.handle_analyze Driver.handle_parseline Driver.handle_regex Driver.handle_ast.
+Separate Extraction Driver.handle_cfg Driver.handle_analyze Driver.handle_parseline Driver.handle_regex Driver.handle_ast Driver.handle_function Driver.handle_group Group.mkTxn.
